@@ -32,7 +32,8 @@ def r1(ctx):
         tte, tfe = call_guard_edges(b, "turmoil::host::Tcp::is_port_assigned")
         rets = [(bb, s) for bb, i, s in b.all_stmts() if s["p"]["l"] == 0 and not s["p"].get("p")]
         for bb, s in rets:
-            ok = bool(ufe) and bool(tfe) and b.dominated_by_any(bb, edges=ufe) and b.dominated_by_any(bb, edges=tfe)
+            ok = all(guarded_by_pred(b, bb, lambda o, pat=pat: o["k"] == "call" and callee_matches(o["t"], pat), side=False)
+                     for pat in ("turmoil::host::Udp::is_port_assigned", "turmoil::host::Tcp::is_port_assigned"))
             ctx.inst(R, "assign_ephemeral_port:return-guard", ok, s["s"], "port returned only if neither UDP nor TCP has it in use" if ok else
                      "assign_ephemeral_port can return a port without both in-use checks (UDP binds, TCP binds and live streams)")
             # the candidate tested is the candidate returned
@@ -183,6 +184,20 @@ def _bit_range(b, op, width):
         return None
     shift, mask_bits, cast_bits = 0, None, None
     cur = o
+    # `let [_, _, a, b] = host.to_be_bytes()`: element i of the byte array of an N-byte integer
+    if cur["k"] == "place" and cur["p"].get("p") and len(cur["p"]["p"]) == 1 and isinstance(cur["p"]["p"][0], dict) and "ci" in cur["p"]["p"][0] \
+            and not cur["p"]["p"][0].get("fe"):
+        src = origin(b, {"c": {"l": cur["p"]["l"]}})
+        if src["k"] == "call":
+            m = re.search(r"<impl u(\d+)>::to_(be|le)_bytes$|::u(\d+)::to_(be|le)_bytes$|^u(\d+)::to_(be|le)_bytes$", src["t"]["f"])
+            if m:
+                g = [x for x in m.groups() if x]
+                nbytes, endian, i = int(g[0]) // 8, g[1], cur["p"]["p"][0]["ci"]
+                lo = (nbytes - 1 - i) * 8 if endian == "be" else i * 8
+                inner = _bit_range(b, src["t"]["args"][0], 10 ** 6)
+                base = inner[0] if inner and inner[0] != "?" else 0
+                return (base + lo, base + lo + 8)
+        return ("?", "?")
     for _ in range(8):
         if cur["k"] == "cast":
             dst = b.tys[cur["ty"]]["s"]
